@@ -39,8 +39,20 @@ pub fn check_automaton(rep: &mut Report, auto: &mut Automaton, origin: &str, kin
     if finals != want_finals {
         bad!("accessors", "final_states() yields {:?}, states with is_final() are {:?}", finals, want_finals);
     }
+    rep.inc("iterator_law_checks");
+    if let Err(e) = iter_laws_by(|| auto.states(), |s| s.id()) {
+        bad!("accessors", "states(): {}", e);
+    }
+    if let Err(e) = iter_laws_by(|| auto.final_states(), |s| s.id()) {
+        bad!("accessors", "final_states(): {}", e);
+    }
     for i in 0..n {
         let s = auto.state(i);
+        if i < 4 || i + 2 >= n {
+            if let Err(e) = iter_laws_by(|| auto.edges(s), |(cid, nx)| (*cid, nx.id())).and(iter_laws_by(|| s.char_ranges(), |c| **c)) {
+                bad!("edges", "edges(state {}) / char_ranges(): {}", i, e);
+            }
+        }
         let ranges: Vec<(u32, u32)> = s.char_ranges().map(|c| (c.pick(), c.pick() + (c.size() - 1))).collect();
         let mut seen = 0;
         for (cid, nx) in auto.edges(s) {
